@@ -1257,6 +1257,12 @@ impl Transaction {
                 error!("ERROR 802394: transaction spends more than it has available");
                 return false;
             }
+            // both sums saturate at the largest amount (generate_total_fees). a sum that sits there says
+            // nothing about the true one, and two saturated sums compare equal
+            if self.total_out == Currency::MAX || self.total_in == Currency::MAX {
+                error!("ERROR 802395: the amounts of the transaction do not fit the currency type");
+                return false;
+            }
         }
 
         //
